@@ -12,6 +12,7 @@ pub fn lookup(name: &str) -> Option<fn()> {
         .or_else(|| super::pattern_h::lookup(name))
         .or_else(|| super::compose_h::lookup(name))
         .or_else(|| super::utf32_h::lookup(name))
+        .or_else(|| super::dispatch_h::lookup(name))
 }
 
 #[cfg(test)]
